@@ -24,10 +24,10 @@ type TypeInfo struct {
 	OID    int
 	Name   string
 	Gen    func(r *rand.Rand) (val any, canon string) // random value incl. boundaries
-	Text   func(b []byte) (string, bool)               // decode text format -> canon
-	Binary func(b []byte) (string, bool)               // decode binary format -> canon
-	Empty  func() (val any, ok bool)                   // a non-NULL value whose encoding is empty (text format)
-	Null   func(kind string) any                       // typed NULLs
+	Text   func(b []byte) (string, bool)              // decode text format -> canon
+	Binary func(b []byte) (string, bool)              // decode binary format -> canon
+	Empty  func() (val any, ok bool)                  // a non-NULL value whose encoding is empty (text format)
+	Null   func(kind string) any                      // typed NULLs
 }
 
 var pgEpoch = time.Date(2000, 1, 1, 0, 0, 0, 0, time.UTC)
